@@ -247,14 +247,21 @@ def _factory_clauses(old, new, ret):
     elif ret is None:
         out += [("unknown_type", Not(Or(Eq(old.evse_type, "BASIC"), Eq(old.evse_type, "AeroVironment"),
                                         Eq(old.evse_type, "ClipperCreek"))))]
+    elif c == "BaseEVSE":
+        # the view a CALLER gets (the concrete class is not known statically): an object exactly for the three known types, vacant, carrying the
+        # station id it was asked for; what the product advertises is reached through the dispatch-level property contracts
+        known = Or(Eq(old.evse_type, "BASIC"), Eq(old.evse_type, "AeroVironment"), Eq(old.evse_type, "ClipperCreek"))
+        out += [("product", And(Eq(ret.ref == 0, Not(known)), Implies(known, And(ret._station_id == old.station_id, IsNone(ret._ev), new.alloc_ref(ret.ref),
+                                                                               Not(old.alloc_ref(ret.ref))))))]
     else:
         out += [("unexpected_class", False)]
     return out
 
 
 REG.contract(
-    M + "get_evse_by_type", params=dict(station_id=Id, evse_type=Id), modifies=BASE_FIELDS + [
-        "EVSE._max_rate", "EVSE._min_rate", "FiniteRatesEVSE.allowable_rates", "alloc"],
+    # frame: only fields of the freshly allocated product are written - no existing station is touched
+    M + "get_evse_by_type", params=dict(station_id=Id, evse_type=Id), ret=Ref("BaseEVSE", nullable=True), modifies=[(f, "FRESH") for f in BASE_FIELDS + [
+        "EVSE._max_rate", "EVSE._min_rate", "FiniteRatesEVSE.allowable_rates"]] + ["alloc"],
     ensures=[C("C13.factory", _factory_clauses, props=("C13", "C16"))])
 
 
